@@ -648,8 +648,53 @@ def query_coherence(rep, idx, rule="C02.10", only=None):
                                 "every mutator writes it too; whether that write invalidates the memo is not decided")
 
 
+def sign_refusals(rep, idx, rule):
+    """Type / sign refusals of the placement: exactly a negative or non-integer address, size or alignment is refused -- 0 is legal
+    for each of them.  Every raise whose condition only tests the type or the sign of `addr` / `size` / `alignment` must be covered by
+    the documented condition (a `<= 0` or `< 1` refuses the legal value 0)."""
+    from .common import raise_sites, _formula, int_canon, check_refusal, Undecided
+    from ..core import dl
+    specs = []
+    try:
+        idx.find_func("MemoryMap._compute_addr_range")
+        specs.append(("MemoryMap._compute_addr_range", [("addr", "addr is not None and (not isinstance(addr, int) or addr < 0)"),
+                                                        ("size", "not isinstance(size, int) or size < 0")]))
+    except Exception:
+        pass
+    specs.append(("MemoryMap.align_to", [("alignment", "not isinstance(alignment, int) or alignment < 0")]))
+    for spec, docs in specs:
+        c = get_fn(idx, spec)
+        site = c.fi.site
+        for pname, text in docs:
+            if pname not in c.fi.params:
+                continue
+            check_refusal(rep, rule, c, f"{spec.split('.')[-1]}(): a negative or non-integer {pname} is refused (ValueError)", text, "ValueError")
+            doc = c.eng.cond(c.norm(int_canon(c.parse(text))))
+            for conds, e, loops, ln, via in raise_sites(c, depth=0):
+                try:
+                    f = _formula(c, conds)
+                    atoms = [c.eng.atom_ir.get(a) for a in dl.f_atoms(f, set())]
+                    def about(a):
+                        if a is None:
+                            return False
+                        names = {x[1] for x in ir.walk(a) if x[0] == 'name'} - {"isinstance", "int", "None"}
+                        consts_only = all(x[0] in ('name', 'const', 'cmp', 'call', 'un') or x == ('name', 'int') for x in ir.walk(a))
+                        return names == {pname} and consts_only
+                    if not atoms or not all(about(a) for a in atoms):
+                        continue
+                    if not dl.implies(c.eng, f, doc)[0]:
+                        rep.bad(rule, site, f"{spec.split('.')[-1]}(): only a negative or non-integer {pname} is refused on sign / type grounds",
+                                f"`raise {e}` at line {ln} fires under {dl.f_show(f)[:100]}, which includes legal values (0 is a legal {pname})", line=ln)
+                    else:
+                        rep.ok(rule, site, f"{spec.split('.')[-1]}(): only a negative or non-integer {pname} is refused on sign / type grounds",
+                               f"raise at line {ln}", nontrivial=False)
+                except Undecided:
+                    continue
+
+
 def legal_placements(rep, idx, rule):
     from . import glue
+    sign_refusals(rep, idx, rule)
     def bounds(a):
         # the bounds test (mentions the map's address width) and the overlap query are documented refusals of their own
         if a[0] == 'call' and a[1][0] == 'attr' and a[1][2] == 'overlaps':
